@@ -28,13 +28,6 @@ theorem step_destAlt (fol : Bytes) : LexStep false ([63, 47, 47] ++ fol) .destAl
   step_opScan 63 [47, 47] fol _ (by decide) (by decide)
     (by simp [scanTok, opScan, isIdent, isNumber]) (by decide) (by decide)
 
-/-- the operators that are tokens of their own class (`//`, the update and comparison operators) -/
-def isOpTok (o : BOp) : Bool :=
-  match o with
-  | .alt | .assign | .modify | .updAdd | .updSub | .updMul | .updDiv | .updMod | .updAlt
-  | .eq | .ne | .lt | .le | .gt | .ge => true
-  | _ => false
-
 theorem step_op (o : BOp) (fol : Bytes) (ho : isOpTok o = true) (h : stops (.op o) fol = true) :
     LexStep false (o.text ++ fol) (.op o) fol false := by
   cases o <;> simp only [isOpTok, Bool.false_eq_true] at ho <;> simp [stops] at h <;>
